@@ -83,6 +83,8 @@ class SStr:
     @staticmethod
     def eq(ex, a, b):
         pa, pb = SStr.norm(a), SStr.norm(b)
+        if all(isinstance(p, str) for p in pa) and all(isinstance(p, str) for p in pb):
+            return ''.join(pa) == ''.join(pb)
         # identical leading parts cancel (x + u == x + v  <=>  u == v)
         k = 0
         while k < len(pa) and k < len(pb) and _same_part(pa[k], pb[k]):
@@ -199,6 +201,20 @@ def match_against_literal(pa, pb):
         if str(n) != s:
             return False
         return st[0].value == n
+    if len(st) == 1 and isinstance(st[0], Fmt):
+        sp = st[0].spec
+        low = sp.lower()
+        if low == 'x' or (low.endswith('x') and low.startswith('0') and low[1:-1].isdigit()):
+            # one hex token against a literal: equal iff the literal is exactly how Python formats that value with this spec
+            try:
+                n = int(s, 16)
+            except ValueError:
+                return False
+            if s.startswith(('-', '+')) or s.lower().startswith('0x') or '_' in s or s != s.strip():
+                return False
+            if format(n, sp) != s:
+                return False            # wrong letter case, wrong width / padding
+            return st[0].value == n
     # literal prefix / suffix mismatch
     if st and isinstance(st[0], str) and not s.startswith(st[0]):
         return False
